@@ -378,6 +378,27 @@ def chkC07 (m : Mon) (r : StepRec) : Bool :=
            | some g => (addressed g).any (fun a => a.1 == t && a.2.1 == i && decide (recvLevel g.eb a.2.2.2 ≤ c.lvl))
            | none => false))
 
+/-- C07's convergence clause ("a string whose every cell is eventually received error-free converges to that string regardless of
+interleaved corrected receptions"), per call: in a text with progressive correction on, an error-free reception (blocks B and
+carrying block both error-free) addressed to a cell is always taken — afterwards the cell holds the end-of-text marker for
+0x0D, its old content for a control code, and otherwise the table image of the byte at level 0. (The same rule as the
+error-free branch of `relC02`; `chkC07conv_of_chkC02`.) -/
+def relC07conv (cfg : Cfg) (set : Settings) (eb : Nat) (t : Nat) (old new : Cell) (addr : Option (Nat × Nat)) : Bool :=
+  match addr with
+  | none => true
+  | some (b, ex) =>
+    if set.prog (textIdOf t) && eb = 0 && ex = 0 then
+      new == (if b = 0x0D then ⟨0, 0⟩ else if b < 0x20 then old else ⟨conv cfg b, 0⟩)
+    else true
+
+def chkC07conv (cfg : Cfg) (m : Mon) (r : StepRec) : Bool :=
+  match r.op with
+  | .init | .clear => true
+  | _ =>
+    match r.op.group? with
+    | some g => cellsBy m r g (relC07conv cfg r.before.set g.eb)
+    | none => true
+
 /-! ## C04: callbacks against getter changes -/
 
 def countKind (evs : List EvObs) (p : EvKind → Bool) : Nat := (evs.filter (fun e => p e.kind)).length
@@ -433,6 +454,17 @@ def chkC04 (m : Mon) (r : StepRec) : Bool :=
       | .ptyn, .text c => c == a.ptyn.cells
       | .ct _, _ => true
       | _, _ => false)
+
+/-- C10's own callback clause ("every addition triggers the AF callback exactly once with that frequency in kHz"): while an AF
+callback is registered, the AF reports of a call are exactly the codes that the call added to the list, each once, as
+87 500 + 100·code kHz. It is one conjunct of `chkC04` (`chkC10cb_of_chkC04`). -/
+def chkC10cb (m : Mon) (r : StepRec) : Bool :=
+  match r.op.group? with
+  | none => true
+  | some _ =>
+    !(m.cbs.getD Cb.af.idx false) ||
+      (sortNat (afEventKhz r.evs) == sortNat ((newAfCodes r.before r.after).map (fun v => 87500 + 100 * v)) &&
+       (afEventKhz r.evs).length ≤ 2)
 
 /-- C08's own callback clause ("… the buffer of the new flag is emptied first if it held anything (and the RT callback
 reports that flag)"): when a switch empties the buffer of the new flag while an RT callback is registered, exactly one
@@ -564,8 +596,8 @@ def chkC16 (cfg : Cfg) (r : StepRec) : Bool :=
 /-- all per-call predicates, with the property each belongs to -/
 def allChecks (tb : Tabs) (m m' : Mon) (r : StepRec) : List (String × Bool) :=
   [("C01", chkC01 m' r && chkNormalScalars r), ("C02", chkC02 tb.cfg m r), ("C04", chkC04 m r && chkC04redeliver m r),
-   ("C06", chkC06 tb.cfg m r), ("C07", chkC07 m r), ("C08", chkC08 m r && chkC08cb m r && chkC08first tb.cfg m r),
-   ("C09", chkC09 m' r), ("C10", chkC10 m' r && chkNormalAf r), ("C11", chkC11 tb m' r && chkNormalEcc r), ("C12", chkC12 m r),
+   ("C06", chkC06 tb.cfg m r), ("C07", chkC07 m r && chkC07conv tb.cfg m r), ("C08", chkC08 m r && chkC08cb m r && chkC08first tb.cfg m r),
+   ("C09", chkC09 m' r), ("C10", chkC10 m' r && chkNormalAf r && chkC10cb m r), ("C11", chkC11 tb m' r && chkNormalEcc r), ("C12", chkC12 m r),
    ("C13", chkC13 r), ("C14", chkC14 r), ("C15", chkC15 m r), ("C16", chkC16 tb.cfg r),
    ("C17", chkC17 m' r)]
 
